@@ -517,8 +517,22 @@ def g_return_prog(rng):
     return prog
 
 
+# query name and period (offsets from 2020-01-01T00:00Z in us) other than the default ones; period edges keep
+# >= 5 minutes from every event edge
+CTXS = [["other-name", -12 * HOUR, 100 * MINUTE], ["q-name", 30 * MINUTE, 3 * HOUR], ["n3", 5 * MINUTE, 24 * HOUR],
+        ["", 135 * MINUTE, 40 * HOUR]]
+
+
 def corpus_sessions():
-    """[(datastore name, program)] run one after the other in the process; one print memo per session."""
+    """[(datastore name, program[, context]) | op] run one after the other in the process; one print memo per session."""
+    # the predefined names NAME / STARTTIME / ENDTIME are the asked query's own, whatever was asked before
+    t = C("echo", V("NAME"), V("STARTTIME"), L(V("ENDTIME")))
+    src = sources()[0]
+    for bad, _ in FAILING[:2]:
+        yield [("main", [("RETURN", C("echo", t, bad))], CTXS[0]), ("main", [("RETURN", t)], CTXS[1]), ("main", [("RETURN", L(t, src))]),
+               ("A", [("zz", L(t, src, bad))], CTXS[2]), ("A", [("RETURN", L(src, t))], CTXS[3]), ("main", [("RETURN", L(src, t))], CTXS[0])]
+    q = [("a", src), ("n", C("query_bucket_eventcount", S("b1"))), ("RETURN", L(V("a"), V("n"), t))]
+    yield [("main", q, c) for c in CTXS] + [("main", q), ("A", q)] + [("A", q, c) for c in CTXS]
     vals = lambda k: [L(I(k + 1), I(k + 2), I(k + 3)), L(I(k + 4), I(k + 5)), L(I(k + 7), I(k + 8), I(k + 9)), L(I(k + 6))]
     for i, shape in enumerate(CALL_SHAPES):
         nest = NESTINGS[i % len(NESTINGS)]
@@ -529,6 +543,8 @@ def corpus_sessions():
             after = [("x", L(I(10), I(20), I(30))), ("y", L(I(50), I(60))), ("RETURN", t)]
             yield [("main", failing), ("main", after)]
             yield [("main", good), ("main", failing), ("main", after), ("main", good)]
+            # the failure inside the very statement that contains T, after T
+            yield [("main", failing[:2] + [("RETURN", C("echo", t, bad))]), ("main", after), ("A", failing[:2] + [("zz", L(t, bad))]), ("A", after)]
     for fn, rules in IN_PLACE:
         src = sources()[0]
         q = [("a", src), ("c", C(fn, src, rules[0])), ("RETURN", L(V("a"), V("c")))]
@@ -543,11 +559,22 @@ def corpus_sessions():
     yield [("main", [("STARTTIME", S(WINDOW_EDGES[1])), ("ENDTIME", S(WINDOW_EDGES[6])), ("true", I(0)), ("RETURN", sources()[0])]),
            ("main", [("RETURN", L(sources()[0], V("true"), V("STARTTIME"), V("ENDTIME")))]),
            ("main", [("RETURN", C("query_bucket_eventcount", S("b1")))])]
+    # what a bucket holds changes between two askings of one text (deleted and re-created, another bucket added)
+    for fn, rules in IN_PLACE:
+        src = C("query_bucket", S("h1"))
+        q = [("a", src), ("n", C("query_bucket_eventcount", S("h1"))), ("RETURN", L(C(fn, V("a"), rules[1]), V("n"), src))]
+        yield [["create", "A", "h1", [list(e) for e in B1_EVENTS]], ("A", q), ("main", q), ["delete", "A", "h1"], ("A", q),
+               ["create", "A", "h1", [list(e) for e in A1_EVENTS]], ("A", q), ["create", "main", "h1", [list(e) for e in B1_EVENTS[:1]]],
+               ("main", q), ("A", q), ["delete", "A", "h1"], ["delete", "main", "h1"], ("main", q)]
     yield [("main", [("RETURN", C("query_bucket", S("b2")))]), ("A", [("RETURN", C("query_bucket_eventcount", S("b2")))]),
            ("main", [("RETURN", C("query_bucket_eventcount", S("b2")))])]      # "b2" exists in A only
 
 
 def g_session(rng):
+    return [q if isinstance(q, list) or rng.random() < 0.5 else q + (rng.choice(CTXS),) for q in g_session_plain(rng)]
+
+
+def g_session_plain(rng):
     r = rng.random()
     if r < 0.45:
         names = tuple(rng.sample(NAMES, 2))
@@ -557,10 +584,13 @@ def g_session(rng):
         for _ in range(rng.choice([2, 3, 4])):
             k = rng.random()
             head = [(names[0], g_listval(rng, 500)), (names[1], g_listval(rng, 600))]
-            if k < 0.4:
+            if k < 0.2:
                 qs.append(head + [("r0", t), (rng.choice(["zz", "RETURN"]), rng.choice(FAILING)[0]), ("RETURN", V("r0"))])
+            elif k < 0.4:
+                bad = rng.choice(FAILING)[0]
+                qs.append(head + [("RETURN", rng.choice([C("echo", t, bad), L(t, bad), D(("k", t), ("l", bad))]))])
             elif k < 0.8:
-                qs.append(head + [("RETURN", rng.choice([t, L(t, t), C("echo", V(names[0]), t)]))])
+                qs.append(head + [("RETURN", rng.choice([t, L(t, t), C("echo", V(names[0]), t), L(t, V("NAME"), V("STARTTIME"))]))])
             else:
                 qs.append(prog)
         return [(rng.choice(["main", "main", "A"]), q) for q in qs]
@@ -703,11 +733,11 @@ def main(argv=None):
         kids = t[2] if k == "call" else t[1] if k == "list" else [v for _, v in t[1]] if k == "dict" else []
         return max([len(kids)] + [widest(x) for x in kids])
 
-    def ask(stream, prog, text, dsname="main", history=None):
+    def ask(stream, prog, text, dsname="main", history=None, ctx=None):
         """One query: the reference on this program alone (datastore contents as they are), the
         implementation in this process as it is by now, the model on this text alone."""
-        want = denotation(prog, contents(dsname))
-        r = impl.run(text, ds=sess.dss[dsname])
+        want = denotation(prog, contents(dsname), ctx)
+        r = impl.run(text, ds=sess.dss[dsname], ctx=ctx)
         kind, payload = r["outcome"]
         got = ("value", canon(impl, payload)) if kind == "value" else (kind, payload)
         ck.count("stream:" + stream)
@@ -716,6 +746,8 @@ def main(argv=None):
         ck.note_case(text if history is None else [text, dsname, len(history)], nontrivial=any(c in text for c in "([{"))
         short = text if len(text) < 400 else text[:200] + f" ...({len(text)} characters)... " + text[-80:]
         op = ["query", dsname, text, {"value": want[1]} if want[0] == "value" else {"class": want[1]} if want[0] == "error" else {}]
+        if ctx:
+            op.append(list(ctx))
         if want[0] == "ambiguous" or (want[0] == "error" and want[1] in ("Other", "Unparseable")):
             ck.count("reference-silent:" + (want[0] if want[0] == "ambiguous" else "outside the documented behaviour"))
             op[3] = {}
@@ -723,7 +755,8 @@ def main(argv=None):
             show = lambda o: (show_canon(o[1]) if o[0] == "value" else str(o[1]))[:600]
             verb = lambda o, v="evaluates to": v if o[0] == "value" else ("raises" if o[0] == "error" else "ends in")
             replay = {"query": text, "implementation": show(got), "reference": show(want), "ast": repr(prog)[:4000], "datastore": dsname,
-                      "call": "aw_query.query2.query('q-name', query, 2020-01-01Z, 2020-01-02Z, datastore); values in the "
+                      "context": ctx or "query name 'q-name', period 2020-01-01Z .. 2020-01-02Z",
+                      "call": "aw_query.query2.query(name, query, start, end, datastore); values in the "
                               "canonical form of harness/c17_session.canon (events as [offset from 2020-01-01Z, duration, data] in us)"}
             if history is not None:
                 ops = setup_ops + history + [op]
@@ -780,9 +813,19 @@ def main(argv=None):
     for stream, queries in sessions:
         memo, history = {}, []
         bl = compact if ck.rng.random() < 0.3 else rnd
-        for dsname, prog in queries:
+        for item in queries:
+            if isinstance(item, list):           # an op on a datastore between two queries
+                try:
+                    sess.apply(item)
+                except Exception as e:
+                    ck.disagreement("session", f"op {item[:3]!r} of a session raised {type(e).__name__}: {e}",
+                                    {"session": setup_ops + history + [item]})
+                    break
+                history.append(item)
+                continue
+            dsname, prog, ctx = item if len(item) == 3 else item + (None,)
             text = p_prog(prog, bl, memo)
-            got, op = ask(stream, prog, text, dsname, history)
+            got, op = ask(stream, prog, text, dsname, history, ctx)
             history.append(op)
         ck.count("session-length=%d" % len(queries))
 
@@ -799,6 +842,8 @@ def main(argv=None):
                 ck.disagreement("query", what + ("" if not stream.startswith("session") else f" (in a session, datastore {dsname})"),
                                 {"query": text, "stream": stream, "datastore": dsname, "model_outcome": show_outcome(out),
                                  "impl_outcome": show_outcome(wantw), "model_calls": mlog, "impl_calls": log})
+    ck.coverage["registry_specification"] = {"snapshot": impl.snapshot_path, "differences_from_the_tree": impl.registry_diffs,
+                                             "live_only_functions_taken_from_the_tree": impl.live_only}
     ck.assumptions += [
         "the reference evaluator's table of built-ins (harness/c11_ref.py: nop, echo, limit_events, concat, sort_by_*, "
         "filter/exclude_keyvals, sum_durations, query_bucket[_eventcount], categorize, tag; flood, merge_events_by_keys, "
